@@ -217,10 +217,10 @@ def band_body(ctx, case):
 
 
 LAWS = [
-    given_law("conversions", conv_cases(), conv_body, {"quick": 1500, "thorough": 8000}),
-    given_law("slopes", slope_cases(), slope_body, {"quick": 500, "thorough": 3000}),
-    given_law("profiles", profile_cases(), profile_body, {"quick": 800, "thorough": 5000}),
-    given_law("single_layer", layer_cases(), layer_body, {"quick": 800, "thorough": 5000}),
-    given_law("photometry", photo_cases(), photo_body, {"quick": 1000, "thorough": 6000}),
+    given_law("conversions", conv_cases(), conv_body, {"quick": 1500, "thorough": 20000}, shards={"quick": 3, "thorough": 16}),
+    given_law("slopes", slope_cases(), slope_body, {"quick": 500, "thorough": 7500}, shards={"quick": 3, "thorough": 16}),
+    given_law("profiles", profile_cases(), profile_body, {"quick": 800, "thorough": 12500}, shards={"quick": 3, "thorough": 16}),
+    given_law("single_layer", layer_cases(), layer_body, {"quick": 800, "thorough": 12500}, shards={"quick": 3, "thorough": 16}),
+    given_law("photometry", photo_cases(), photo_body, {"quick": 1000, "thorough": 15000}, shards={"quick": 3, "thorough": 16}),
     plain_law("bands_exhaustive", band_cases, band_body),
 ]
